@@ -284,7 +284,7 @@ func RunC01(env *Env, rep *Report) {
 	}
 	shapes = append(shapes, c01ElifChainShapes()...)
 	rep.Technique = "symbolic execution of the real lexer/parser/emitter (go/ssa) on program skeletons with symbolic names; SMT-discharged bisimulation between the skeleton's reference semantics and the emitted assembly"
-	rep.Explanation = "Bounded symbolic verification, not a proof. For every statement-tree skeleton within the shape bound, the real ParseProgram and Emit are executed symbolically (all command, flag, label and script names are SMT string variables constrained only to their lexical class; -optimize on and off). The emitted text is parsed into a control-flow graph and compared with the reference semantics of the skeleton by a bisimulation whose every step is an SMT query over an arbitrary game state (flags/vars/trainer flags are uninterpreted functions, chosen afresh after every command), so executions of any length are covered for each skeleton. unsat on all mismatch queries = holds for every name and every state; sat = counterexample, replayed on the natively built code before it is reported."
+	rep.Explanation = "Bounded symbolic verification, not a proof. For every statement-tree skeleton within the shape bound, the real ParseProgram and Emit are executed symbolically (all command, flag, label and script names are SMT string variables constrained only to their lexical class; -optimize on and off). The emitted text is parsed into a control-flow graph and compared with the reference semantics of the skeleton by a bisimulation whose every step is an SMT query over an arbitrary game state (flags/vars/trainer flags are uninterpreted functions, chosen afresh after every command), so executions of any length are covered for each skeleton. Besides single scripts the families contain files with two scripts and files mixing script statements with inline map scripts (entries and table rows, whose labels are read off the emitted header and tables), each script being compared with its own body. unsat on all mismatch queries = holds for every name and every state; sat = counterexample, replayed on the natively built code before it is reported."
 	rep.Bounds = map[string]interface{}{"max_nodes": maxNodes, "max_depth": c01Cfg.maxDepth, "enumerated_skeletons": nEnum, "context_family_skeletons": len(shapes) - nEnum, "elif_chain_family": "if with 2..3 elifs, with/without else, every body empty or one command, alone and inside a while",
 		"statement_kinds": append(append([]string{}, c01Cfg.simple...), c01Cfg.constructs...), "conditions": "single flag() leaf", "goto_targets": "every label of the skeleton, or a label not defined in the file", "optimize": "on and off"}
 	rep.Outside = []string{"statement trees with more nodes or deeper nesting than the bound (other than the context family)", "compound conditions (C02) and switch (C03)", "more than two scripts per file"}
